@@ -487,6 +487,40 @@ fn wl_c09(seed: u64, tier: &str) -> Vec<Vec<Value>> {
             }
             sessions.push(std::mem::replace(&mut ops, vec![]));
         }
+        // elements of norm one (x * conj(x) = 1: the cyclotomic / unitary elements every pairing
+        // value is) - a class of its own for inversion and squaring shortcuts
+        if *fname == "Fq12" || *fname == "Fq2" {
+            use ff::Field;
+            use pairing::bls12_381::{Fq12, Fq2 as LFq2};
+            for i in 0..(if thorough { 40 } else { 6 }) {
+                let xj = if *fname == "Fq12" {
+                    let y = Fq12::from_j(&rnd(&mut r));
+                    let mut x = y;
+                    x.conjugate();
+                    x.mul_assign(&y.inverse().unwrap());
+                    if i % 3 == 2 {
+                        // also through the second easy-part step: x^(q^2) * x (cyclotomic subgroup)
+                        let mut f = x;
+                        f.frobenius_map(2);
+                        x.mul_assign(&f);
+                    }
+                    x.to_j()
+                } else {
+                    let y = LFq2::from_j(&rnd(&mut r));
+                    let mut x = y;
+                    x.frobenius_map(1);
+                    x.mul_assign(&y.inverse().unwrap());
+                    x.to_j()
+                };
+                for func in ["inv", "sqr", "neg"].iter() {
+                    ops.push(json!({"op": "ext", "f": fname, "fn": func, "a": xj, "cls": "unitary"}));
+                }
+                ops.push(json!({"op": "ext", "f": fname, "fn": "mul", "a": xj, "b": rnd(&mut r), "cls": "unitary"}));
+                ops.push(json!({"op": "ext", "f": fname, "fn": "mul", "a": xj, "b": xj, "cls": "unitary"}));
+                ops.push(json!({"op": "ext", "f": fname, "fn": "frob", "a": xj, "k": nat(&vec![1 + (i as u64 % 11)]), "cls": "unitary"}));
+            }
+            sessions.push(std::mem::replace(&mut ops, vec![]));
+        }
         // random arithmetic
         let n = match (*fname, thorough) {
             ("Fq2", false) => 3000,
@@ -734,6 +768,10 @@ pub fn scalar_catalogue(r: &mut Rng, all: bool) -> Vec<(W, &'static str)> {
         v.push((w_add_small(&z, s), "small"));
     }
     v.push((w_sub_small(&fr.p, 1), "r-1"));
+    v.push((w_sub_small(&fr.p, 2), "r-2"));
+    v.push((w_sub_small(&fr.p, 3), "r-3"));
+    v.push((w_shr1(&fr.p), "(r-1)/2"));
+    v.push((w_add_small(&w_shr1(&fr.p), 1), "(r+1)/2"));
     v.push((fr.p.clone(), "r"));
     v.push((w_add_small(&fr.p, 1), "r+1"));
     v.push((w_ones(255, 4), "2^255-1"));
@@ -814,7 +852,7 @@ where
     let per = if is1 { 4 } else { 2 };
     let stride = if is1 || thorough { 1 } else { 3 };
     for (i, (k, cls)) in cat.iter().enumerate() {
-        if i % stride != 0 && *cls != "r" && *cls != "2^255-1" && *cls != "r+2^255" {
+        if i % stride != 0 && !["r", "r-1", "r-2", "2^255-1", "r+2^255"].contains(cls) {
             continue;
         }
         let (p, pc) = &pool[i % pool.len()];
